@@ -77,7 +77,7 @@ func cmdMcopy(args []string) error {
 		case pan != "":
 			cs.Result = "panic: " + pan
 			cs.Oracle = append(cs.Oracle, "C15: MCOPY panicked: "+pan)
-			l.B(pattern).Big(dst.ToBig()).Big(src.ToBig()).Big(ln.ToBig()).Res(2, []byte(pan))
+			l.B(pattern).Big(dst.ToBig()).Big(src.ToBig()).Big(ln.ToBig()).Res(2, []byte(pan)).N(0)
 		case fork != "Cancun":
 			// before Cancun the byte must be an invalid instruction
 			cs.Result = fmt.Sprint(err)
@@ -96,10 +96,10 @@ func cmdMcopy(args []string) error {
 				msg = err.Error()
 			}
 			cs.Result = "err: " + msg
-			l.B(before.Mem).Big(dst.ToBig()).Big(src.ToBig()).Big(ln.ToBig()).Res(1, []byte(msg))
+			l.B(before.Mem).Big(dst.ToBig()).Big(src.ToBig()).Big(ln.ToBig()).Res(1, []byte(msg)).N(before.Gas)
 		default:
 			cs.Result = "ok"
-			l.B(before.Mem).Big(dst.ToBig()).Big(src.ToBig()).Big(ln.ToBig()).Open().N(0).N(before.Cost).B(after.Mem).Close()
+			l.B(before.Mem).Big(dst.ToBig()).Big(src.ToBig()).Big(ln.ToBig()).Open().N(0).N(before.Cost).B(after.Mem).Close().N(before.Gas)
 			// independent oracle: memmove on a copy
 			if ln.IsUint64() && dst.IsUint64() && src.IsUint64() {
 				n, d, s := ln.Uint64(), dst.Uint64(), src.Uint64()
